@@ -174,6 +174,9 @@ func gen(r *hv.Rng, i int, tier string) (string, hv.Val) {
 	if r.Chance(1, 4) {
 		add("Connection", []string{"close", "keep-alive", "Keep-Alive", "x", "Close"}[r.Intn(5)])
 	}
+	if src != 1 && r.Chance(1, 10) {
+		add("Transfer-Encoding", []string{"chunked", "chunked", "identity", "gzip"}[r.Intn(4)])
+	}
 	// body
 	np := []int{0, 1, 1, 1, 2, 3, 4}[r.Intn(7)]
 	var pieces [][]byte
